@@ -17,12 +17,12 @@ RULE = ("trajectories of generated worlds (heterogeneous voltages, three-phase m
         "after each run every analysis function is recomputed in plain Python from the recorded rates, the scenario's voltages / "
         "phases / constraint dictionaries and the sessions; constraint subsets are requested in random order; non-trivial = "
         ">=2 distinct voltages and a subset query whose order differs from network order; distinct = history signature + query")
-PROBES = ["concurrent_callers", "thread_switches", "subset_reordered", "hetero_voltage", "nema_checked", "nema_zero_mean", "threshold_query", "unserved_session", "requery_after_update_constraint", "requery_after_remove_constraint", "same_instant_two_zones", "degenerate_subset_request",
+PROBES = ["concurrent_callers", "thread_switches", "subset_reordered", "hetero_voltage", "nema_checked", "nema_zero_mean", "threshold_query", "unserved_session", "requery_after_update_constraint", "requery_after_remove_constraint", "same_instant_two_zones", "trajectory_over_3000_periods", "trajectory_over_16384_periods", "degenerate_subset_request",
           "magnitudes_flag_true", "complex_return", "refused_add_then_corrected"]
 FAULT_DIMENSION = "none - post-run oracle on recorded trajectories (crash+rerun only diversifies the trajectories)"
 ASSUMPTIONS = ["constraint currents are compared by magnitude (either complex or real return passes)",
                "sessions within 1e-9 kWh of the demands-met threshold are inconclusive"]
-PROFILE = world.profile(constraints={"three": 5, "single": 1, "none": 1}, heterovolt=0.8, faults={"crash": 0.2},
+PROFILE = world.profile(constraints={"three": 5, "single": 1, "none": 1}, heterovolt=0.8, faults={"crash": 0.2}, very_long_idle=0.0015,
                         resume_modes=["rerun"], party={"scripted": 3, "uncontrolled": 2, "greedy": 2}, noise=0.2,
                         demand=(0.05, 2.0))
 
@@ -51,6 +51,20 @@ def check(sc):
     R = [[float(x) for x in row] for row in sim.charging_rates]
     W = len(R[0]) if R else 0
     n = sim.iteration
+    # periods that are compared one by one: all of them, or - for trajectories of many thousands of periods - every period in which
+    # current flowed, the first and last few, every 97th, and the neighbourhood of every power of two (block boundaries)
+    if W <= 3000:
+        TS = list(range(W))
+    else:
+        pick = {t for t in range(W) if any(R[i][t] for i in range(len(ids)))} | set(range(0, W, 97)) | set(range(min(W, 4))) | set(range(max(0, W - 4), W))
+        p2 = 256
+        while p2 <= W + 2:
+            pick |= {t for t in (p2 - 2, p2 - 1, p2, p2 + 1) if 0 <= t < W}
+            p2 *= 2
+        TS = sorted(pick)
+        out.probe("trajectory_over_3000_periods")
+        if W > 16384:
+            out.probe("trajectory_over_16384_periods")
     if len(set(V)) >= 2:
         out.probe("hetero_voltage")
     try:
@@ -60,7 +74,7 @@ def check(sc):
             ap = analysis.aggregate_power(sim)
             if len(ac) != W or len(ap) != W:
                 out.add("C18/aggregate_length", "%d/%d entries for %d recorded periods" % (len(ac), len(ap), W))
-            for t in range(min(W, len(ac), len(ap))):
+            for t in [t_ for t_ in TS if t_ < min(W, len(ac), len(ap))]:
                 wc = sum(R[i][t] for i in range(len(ids)))
                 wp = sum(V[i] * R[i][t] for i in range(len(ids))) / 1000.0
                 if not close(float(ac[t]), wc):
@@ -91,7 +105,7 @@ def check(sc):
                         arr = res[nm]
                         if np.iscomplexobj(arr):
                             out.probe("complex_return")
-                        for t in range(W):
+                        for t in TS:
                             w = abs(sum(by[nm]["coeffs"].get(s, 0) * R[i][t] * cmath.exp(1j * math.radians(PH[i])) for i, s in enumerate(ids)))
                             if not close(abs(complex(arr[t])), w, rel=1e-8):
                                 out.add("C18/constraint_currents", "constraint %s t=%d: |%r|, phase-aware weighted sum %r (requested order %s, network order %s)"
@@ -114,7 +128,7 @@ def check(sc):
                         out.add("C18/constraint_currents_keys", "requested %s (%s), got keys %s, expected %s" % (req, form, sorted(res3.keys()), sorted(want3)))
                     by = {c["name"]: c for c in cons}
                     for nm in (sorted(want3) if not out.viol else []):
-                        for t in range(W):
+                        for t in TS:
                             w = abs(sum(by[nm]["coeffs"].get(s, 0) * R[i][t] * cmath.exp(1j * math.radians(PH[i])) for i, s in enumerate(ids)))
                             if not close(abs(complex(res3[nm][t])), w, rel=1e-8):
                                 out.add("C18/constraint_currents", "request %s (%s): constraint %s t=%d: %r, phase-aware weighted sum %r (network order %s)"
@@ -128,7 +142,7 @@ def check(sc):
                     ub = analysis.current_unbalance(sim, ph)
                     out.probe("nema_checked")
                     by = {c["name"]: c for c in cons}
-                    for t in range(W):
+                    for t in TS:
                         mags = [abs(sum(by[nm]["coeffs"].get(s, 0) * R[i][t] * cmath.exp(1j * math.radians(PH[i])) for i, s in enumerate(ids))) for nm in ph]
                         mean = sum(mags) / 3.0
                         g = float(ub[t])
@@ -166,7 +180,7 @@ def check(sc):
                 if sorted(res2.keys()) != sorted(sub2):
                     out.add("C18/constraint_currents_keys", "after update_constraint: requested %s, got keys %s" % (sub2, sorted(res2.keys())))
                 for nm in (sub2 if not out.viol else []):
-                    for t in range(W):
+                    for t in TS:
                         w = abs(sum(by[nm]["coeffs"].get(s, 0) * R[i][t] * cmath.exp(1j * math.radians(PH[i])) for i, s in enumerate(ids)))
                         if not close(abs(complex(res2[nm][t])), w, rel=1e-8):
                             out.add("C18/constraint_currents_after_update", "after update_constraint(%s): constraint %s t=%d: %r, phase-aware weighted sum "
@@ -193,7 +207,7 @@ def check(sc):
                         out.add("C18/constraint_currents_keys", "after a refused and then corrected add_constraint: requested [\"analyst's row\"], got keys %s "
                                 "(network now lists %s)" % (sorted(res3.keys()), list(sim.network.constraint_index)[-3:]))
                     else:
-                        for t in range(W):
+                        for t in TS:
                             w = abs(coef * R[i0][t])
                             if not close(abs(complex(res3["analyst's row"][t])), w, rel=1e-8):
                                 out.add("C18/constraint_currents", "constraint added after a refused first attempt: t=%d returns %r, |%r x rate of %s| = %r"
@@ -240,7 +254,7 @@ def check(sc):
                 if len(da) != n:
                     out.add("C18/datetimes_length", "%d entries for %d simulated periods" % (len(da), n))
                 else:
-                    for k in range(n):
+                    for k in ([k_ for k_ in TS if k_ < n] if W > 3000 else range(n)):
                         w = np.datetime64(start + dt.timedelta(minutes=sc["sim"]["period"] * k))
                         try:
                             off_ = abs((np.datetime64(da[k], "us") - w) / np.timedelta64(1, "us")) > 2
